@@ -35,6 +35,7 @@ import (
 	"go.minekube.com/gate/pkg/internal/connwrap"
 	"go.minekube.com/gate/pkg/internal/packetlimiter"
 	"go.minekube.com/gate/pkg/internal/reload"
+	"go.minekube.com/gate/pkg/internal/verifhook"
 	"go.minekube.com/gate/pkg/util/errs"
 	"go.minekube.com/gate/pkg/util/netutil"
 	"go.minekube.com/gate/pkg/util/uuid"
@@ -547,6 +548,7 @@ func (p *Proxy) Servers() []RegisteredServer {
 	defer p.muS.RUnlock()
 	l := make([]RegisteredServer, 0, len(p.servers))
 	for _, rs := range p.servers {
+		verifhook.Point("list.servers.step")
 		l = append(l, rs)
 	}
 	return l
@@ -624,6 +626,7 @@ func (p *Proxy) Register(info ServerInfo) (RegisteredServer, error) {
 	}
 	defer p.muS.Unlock()
 	rs := newRegisteredServer(info)
+	verifhook.Point("srv.register.insert")
 	p.servers[name] = rs
 	// Note: We don't mark API-registered servers as config-managed
 	// so they won't be unregistered during config reloads
@@ -649,6 +652,7 @@ func (p *Proxy) Unregister(info ServerInfo) bool {
 	if !ok || !ServerInfoEqual(rs.ServerInfo(), info) {
 		return false
 	}
+	verifhook.Point("srv.unregister.delete")
 	delete(p.servers, name)
 	delete(p.configServers, name) // Clean up config tracking
 	if p.via != nil {
@@ -674,10 +678,12 @@ func (p *Proxy) DisconnectAll(reason component.Component) {
 	p.muP.RLock()
 	players := p.playerIDs
 	p.muP.RUnlock()
+	verifhook.Point("list.disconnectall.iter")
 
 	var wg sync.WaitGroup
 	wg.Add(len(players))
 	for _, p := range players {
+		verifhook.Point("list.disconnectall.step")
 		go func(p *connectedPlayer) {
 			defer wg.Done()
 			p.Disconnect(reason)
@@ -801,8 +807,10 @@ func (p *Proxy) Players() []Player {
 	p.muP.RLock()
 	playerIDs := p.playerIDs
 	p.muP.RUnlock()
+	verifhook.Point("list.players.iter")
 	pls := make([]Player, 0, len(playerIDs))
 	for _, player := range playerIDs {
+		verifhook.Point("list.players.step")
 		pls = append(pls, player)
 	}
 	return pls
@@ -840,6 +848,7 @@ func (p *Proxy) playerByName(username string) *connectedPlayer {
 }
 
 func (p *Proxy) canRegisterConnection(player *connectedPlayer) bool {
+	verifhook.Point("reg.can.enter")
 	c := p.config()
 	if c.OnlineMode && c.OnlineModeKickExistingPlayers {
 		return true
@@ -856,6 +865,7 @@ func (p *Proxy) registerConnection(player *connectedPlayer) bool {
 	c := p.config()
 
 retry:
+	verifhook.Point("reg.register.enter")
 	p.muP.Lock()
 	if c.OnlineModeKickExistingPlayers {
 		existing, ok := p.playerIDs[player.ID()]
@@ -866,6 +876,7 @@ retry:
 			// Disconnecting the existing connection will call p.unregisterConnection in the
 			// teardown needing the p.muP.Lock() so we unlock.
 			p.muP.Unlock()
+			verifhook.Point("reg.kick")
 			existing.disconnectDueToDuplicateConnection.Store(true)
 			existing.Disconnect(&component.Translation{
 				Key: "multiplayer.disconnect.duplicate_login",
@@ -888,18 +899,23 @@ retry:
 		}
 	}
 
+	verifhook.Point("reg.register.insert")
 	p.playerIDs[player.ID()] = player
 	p.playerNames[lowerName] = player
+	verifhook.Event("reg.inserted")
 	p.muP.Unlock()
 	return true
 }
 
 // unregisters a connected player
 func (p *Proxy) unregisterConnection(player *connectedPlayer) (found bool) {
+	verifhook.Point("reg.unregister.enter")
 	p.muP.Lock()
+	verifhook.Point("reg.unregister.locked")
 	_, found = p.playerIDs[player.ID()]
 	delete(p.playerNames, strings.ToLower(player.Username()))
 	delete(p.playerIDs, player.ID())
+	verifhook.Event("reg.deleted", "found", found)
 	empty := len(p.playerIDs) == 0
 	p.muP.Unlock()
 	if empty {
